@@ -72,13 +72,17 @@ def refresh (w : Nat) (prompt : List Nat) (sec : List Nat) (prevCursorRow : Nat)
   let (lineCol, lineRows) := coordsLine w l startCols
   -- the line ends on the last column of a row (column 0 with nothing before it is not that)
   let atMargin := lineCol == 0 && ((splitNL l).getLast?.getD []).length + startCols > 0
+  -- the rows on which the last line of the buffer continues when it is wrapped (`lastLineRows`): the secondary
+  -- prompt goes on its first row
+  let lastRows : Nat := (lineSpan w ((splitNL l).getLast?.getD []) 0 startCols).2
   [.hide] ++ mv .cub w ++ (if !primaryPrinted then mv .cuu prevCursorRow else []) ++
   (if prompt.isEmpty then [] else [.text prompt]) ++ [.dsr] ++
   displayLine w startCols l (!atMargin) ++
   (if atMargin then [.crlf, .el0] else []) ++
   -- displayMultilinePrompts
   (if countNL l > 1 then mv .cuu lineRows ++ mv .cub w ++ mv .cud lineRows else []) ++
-  (if countNL l > 0 then mv .cub w ++ (if sec.length ≤ startCols then [.text sec] else []) ++ mv .cub w ++ mv .cuf lineCol else []) ++
+  (if countNL l > 0 then mv .cuu lastRows ++ mv .cub w ++ (if sec.length ≤ startCols then [.text sec] else []) ++
+      mv .cud lastRows ++ mv .cub w ++ mv .cuf lineCol else []) ++
   -- displayHelpers
   [.crlf, .el0, .ed0] ++ mv .cub w ++
   -- cursorHintToLineStart
